@@ -251,7 +251,7 @@ pub fn run_c10(cfg: &RunCfg, trace: bool) -> RunOut {
 fn run_c10_async(cfg: &RunCfg, out: &mut RunOut) {
     use crate::asyncsim::*;
     use std::sync::atomic::Ordering;
-    let ab = match abuild(&cfg.specs[0], crate::rng::mix(cfg.order_seed, 0), cfg.permute, crate::rng::mix(cfg.seed, 0xC10), 30) {
+    let mut ab = match abuild(&cfg.specs[0], crate::rng::mix(cfg.order_seed, 0), cfg.permute, crate::rng::mix(cfg.seed, 0xC10), 30) {
         Ok(a) => a,
         Err(_) => return,
     };
@@ -282,6 +282,13 @@ fn run_c10_async(cfg: &RunCfg, out: &mut RunOut) {
             return;
         }
         let faulted = cfg.fault.as_ref().map(|p| p.op_index == idx).unwrap_or(false);
+        if matches!(op, Op::Reopen) && ax.slots.is_empty() {
+            if areopen(&mut ab, &cfg.specs[0]).is_err() {
+                return;
+            }
+            ax.root = ab.root.clone();
+            out.count("fault.async_restart_adapters_rebuilt");
+        }
         ab.ctl.on.store(true, Ordering::SeqCst);
         if faulted {
             ab.ctl.calls.store(0, Ordering::SeqCst);
